@@ -122,6 +122,7 @@ func buildRealGraphC(g *GraphSpec, stages map[string]*scheduler.Stage, built map
 		} else {
 			t := task.FromCommands("sim " + s.Name)
 			t.Name = s.Name
+			t.Interactive = s.Interactive
 			st.Task = t
 		}
 		stages[s.Name] = st
